@@ -1070,7 +1070,7 @@ func (x *Exec) instrs(st *State, fr *Frame, b *ssa.BasicBlock, i int, prev *ssa.
 			}
 			x.checkNil(st, fr, in, p)
 			x.frameCheck(st, fr, in, p)
-			x.guardCheck(st, fr, in, ptrClass(p))
+			x.guardCheckW(st, fr, in, ptrClass(p), true, false)
 			x.storePtr(st, p, val, in.Val.Type())
 		case *ssa.UnOp:
 			x.doUnOp(st, fr, in)
@@ -1171,7 +1171,7 @@ func (x *Exec) instrs(st *State, fr *Frame, b *ssa.BasicBlock, i int, prev *ssa.
 				continue
 			}
 			x.safety(st, fr, in, "nilmap", "(not (= "+m.Ref+" 0))")
-			x.guardCheck(st, fr, in, "M|"+typeKey(m.Key)+"|"+typeKey(m.Elt))
+			x.guardCheckW(st, fr, in, "M|"+typeKey(m.Key)+"|"+typeKey(m.Elt), true, false)
 			if !x.classAllowed("M|" + typeKey(m.Key) + "|" + typeKey(m.Elt)) {
 				x.frameCheckRef(st, fr, in, m.Ref, "map")
 			}
@@ -1437,13 +1437,20 @@ func (x *Exec) frameCheck(st *State, fr *Frame, in ssa.Instruction, p Ptr) {
 
 // guardCheck: an access to a lock-protected heap class requires the lock to be held.
 func (x *Exec) guardCheck(st *State, fr *Frame, in ssa.Instruction, class string) {
+	x.guardCheckW(st, fr, in, class, false, false)
+}
+
+// guardCheckW: write=true additionally requires the lock to be held exclusively (a read lock does not
+// cover writes). Used for stores, map updates and calls of callees whose frame names a guarded class.
+// pattern=true: class is a class pattern from a callee's frame (it may be shorter than the guarded pattern).
+func (x *Exec) guardCheckW(st *State, fr *Frame, in ssa.Instruction, class string, write, pattern bool) {
 	if x.fc == nil || len(x.fc.Guarded) == 0 {
 		return
 	}
 	for _, g := range x.fc.Guarded {
 		hit := false
 		for _, c := range g.Classes {
-			if strings.Contains(class, c) {
+			if class != "" && (strings.Contains(class, c) || (pattern && strings.Contains(c, class))) {
 				hit = true
 			}
 		}
@@ -1474,6 +1481,10 @@ func (x *Exec) guardCheck(st *State, fr *Frame, in ssa.Instruction, class string
 			continue
 		}
 		x.check(st, o, "(select "+x.heldArr(st)+" "+lockTerm+")")
+		if write {
+			ow := x.oblig(name+"/exclusive", "guarded-by", props, in.Pos(), "every write to "+strings.Join(g.Classes, ", ")+" (own stores, and calls of functions whose frame names these classes) happens with "+g.Lock.Text+" held exclusively, not through a read lock")
+			x.check(st, ow, "(and (select "+x.heldArr(st)+" "+lockTerm+") (not (select "+x.sharedArr(st)+" "+lockTerm+")))")
+		}
 	}
 }
 
